@@ -748,7 +748,9 @@ class StrategyBase(Node):
                 return
 
         # update data if this value is different, if flows were booked since
-        # the last update (they change the return base) or
+        # the last update (they change the return base), if the children
+        # paid bid/offer that is not yet in our total (a round trip can leave
+        # value and notional where they were) or
         # if now has changed - avoid all this if not since it
         # won't change
         if (
@@ -756,6 +758,7 @@ class StrategyBase(Node):
             or not is_zero(self._value - val)
             or not is_zero(self._notl_value - notl_val)
             or not is_zero(self._all_flows.values[inow] - self._net_flows)
+            or (self._bidoffer_set and not is_zero(self._bidoffer_paid - bidoffer_paid))
         ):
             self._value = val
             _wvalues(self._values)[inow] = val
